@@ -619,6 +619,27 @@ def shrink(case):
         yield rebuild(parts, size // 2)
 
 
+# ---------------------------------------------------------------- the source-level tie (tools/py2coq_c15.py)
+
+
+def extra_obligations(tier):
+    """The counting loop of parse_stream and of parse_async_stream (baize/multipart_helper.py) is translated from the source
+    in BAIZE_REPO as it is now: the body of the inner `while True:` for one event as a transition of the six local
+    variables (isinstance chain = match on the event, `raise RequestEntityTooLarge()` = an outcome, file_factory /
+    file.write / file.seek / safe_decode / the decoder = fields of a record instantiated with the model's own functions),
+    the two loops as C15/PyLib.v's for_chunks / while_events.  coqc re-checks C15/Translated.v against the fresh text:
+    translated body = C01.Model.helper_event for every state, event and both limits; whole function =
+    C15.Model.parse_stream_g for every chunk list and every DATA-state function; the limits are exact (raise at the first
+    event at which a limit is exceeded, not before), for the sync and the async function.  A source the translator
+    refuses is not applicable (None), never an alarm."""
+    import importlib.util
+    import os
+    spec = importlib.util.spec_from_file_location("py2coq_c15", os.path.join(core.VERIF, "tools", "py2coq_c15.py"))
+    py2coq_c15 = importlib.util.module_from_spec(spec)
+    spec.loader.exec_module(py2coq_c15)
+    return py2coq_c15.obligations(core.REPO, core.VERIF)
+
+
 if __name__ == "__main__":
     import sys
     core.main(sys.modules[__name__])
